@@ -264,6 +264,8 @@ def plan(tier, seed):
     pl.cases = resolver_cases()
     pl.canaries = [canary()]
     pl.finite = [("C10-U/uniform-loops", lambda: uniform.check(LOOPS))]
+    from vfkit import lean as _lean
+    pl.finite.append(("A5/Lean re-check of the lifting lemmas for operand runs", _lean.lemma_check))
     pl.functions = ["luqum.utils.UnknownOperationResolver." + f for f in
                     ("__init__", "_last_operation", "_first_nonop_parent", "_track_last_op", "_get_last_op",
                      "visit_or_operation", "visit_and_operation", "visit_unknown_operation", "__call__")] + \
